@@ -554,9 +554,12 @@ where
         B: GGSWInfos,
     {
         let res_dft: usize = self.bytes_of_vec_znx_dft((selector_infos.rank() + 1).into(), selector_infos.size());
+        // The external product is applied to `res` (which holds t - f), not to the inputs:
+        // budget for whichever of the two layouts is wider.
         res_dft
             + self
                 .glwe_external_product_internal_tmp_bytes(res_infos, a_infos, selector_infos)
+                .max(self.glwe_external_product_internal_tmp_bytes(res_infos, res_infos, selector_infos))
                 .max(self.vec_znx_big_normalize_tmp_bytes())
     }
 
